@@ -25,6 +25,9 @@ def check(chk, thorough=False):
     chk.run('C19.d', 'R-NOPATH', 'a bundle whose transmission was taken over by a TX step (fragmentation) does not reach the "no sender" failure that the forwarder reports as deleted', lambda ob: c19d(tree, ob), floor=2)
     chk.run('C19.e', 'R-PAIR', 'each terminal outcome (delete, deliver, forward / forward failure) gets exactly one report opportunity', lambda ob: c19e(tree, ob), floor=3)
     chk.run('C19.h', 'R-NOPATH', 'what is reported is what happened: a security failure withdraws deliver before delete is recorded (= C12.b); one routing decision per bundle, endpoint routing before static routing (= C10.c); a fragment that completes reassembly is withdrawn like the others (= C06.d)', lambda ob: _c19h(tree, ob), floor=15)
+    chk.run('C19.i', 'R-PAIR', 'a bundle is reported deleted or delivered / forwarded, never both: wherever delete is recorded, the action it replaces is withdrawn first', lambda ob: c19i(tree, ob), floor=5)
+    chk.run('C19.j', 'R-FLOW', '"forwarded" is recorded only for a bundle that was handed to a convergence layer (or waits for its session): no sender closure drops it (= C11.h)', lambda ob: __import__('sa.props.c11', fromlist=['c11h']).c11h(tree, ob), floor=6)
+    chk.run('C19.k', 'R-TRUTH', 'a status time that was not requested stays absent: the time field maps "no value" to "no value", not to DTN time zero', lambda ob: c19k(tree, ob), floor=1)
     chk.run('C19.f', 'R-TYPE', 'the reported reason is a reason code (= C12.f)', lambda ob: c12f(tree, ob), floor=2)
     chk.run('C19.g', 'R-WHO', 'the forwarding path does not rewrite report-to / flags / source / creation timestamp of the subject before its report is generated (= C11.a restricted to report-relevant fields)', lambda ob: c11a(tree, ob, only=('report_to', 'bundle_flags', 'source', 'create_ts')), floor=1)
 
@@ -305,3 +308,64 @@ def c19d(tree, ob):
     snd = [c for c in calls_in(fv.func) if pm('ctr.sender($d)', c) is not None]
     if snd and fv.cfg.path(fv.node(st), fv.node(snd[0]), include_exc=False) is not None and not raises:
         ob.violate(AGENT, fv.qual, 'interrupt -> ctr.sender(data)', 'a bundle consumed by a TX step is also transmitted whole', snd[0])
+
+
+
+def c19i(tree, ob):
+    ''' create_report() asserts every action on record that was requested.  "delete" next to a "deliver" (or "forward") that
+    was recorded earlier -- by the routing step, before an application or the forwarder found it could not go through with
+    it -- makes the report claim both. '''
+    n = 0
+    for rel in sorted(r for r in tree.modules if r.startswith('bp/') and '/encoding/' not in r):
+        for (r, qual, func) in tree.all_functions([rel]):
+            recs = [c for c in calls_in(func) if isinstance(c.func, ast.Attribute) and c.func.attr == 'record_action' and c.args and const_str(c.args[0]) == 'delete']
+            if not recs:
+                continue
+            fv = FuncView(tree, rel, qual)
+            for c in recs:
+                n += 1
+                recv = src(c.func.value)
+                wd = []
+                for x in walk_local(func):
+                    if isinstance(x, ast.Delete) and any(pm("{}.actions[$k]".format(recv), t) is not None for t in x.targets):
+                        wd.append(x)
+                for x in calls_in(func):
+                    if pm("{}.actions.pop($k, None)".format(recv), x) is not None or pm("{}.actions.pop($k)".format(recv), x) is not None or pm("{}.actions.clear()".format(recv), x) is not None:
+                        wd.append(x)
+                keys = set()
+                ok = False
+                for w in wd:
+                    if isinstance(w, ast.Delete):
+                        k = const_str(pm("{}.actions[$k]".format(recv), w.targets[0])['k'])
+                    else:
+                        got = pm("{}.actions.pop($k, None)".format(recv), w) or pm("{}.actions.pop($k)".format(recv), w)
+                        k = const_str(got['k']) if got else '*'
+                    guard = enclosing(w, ast.If)
+                    # the withdrawal dominates the record, or sits in an "if 'deliver' in actions:" that does
+                    dom = fv.dominates(w, c)[0] or (guard is not None and "in {}.actions".format(recv) in src(guard.test) and fv.dominates(guard.test, c)[0] and enclosing(c, ast.If) is not guard)
+                    if dom:
+                        keys.add(k)
+                if rel.startswith('bp/app/'):
+                    ok = bool(keys & {'deliver', '*'})
+                else:
+                    ok = bool(keys & {'deliver', 'forward', '*'})
+                if not ok and fv.has(c, "'deliver' in {}.actions".format(recv), False):
+                    ok = True
+                if ok:
+                    ob.site(rel, c, qual + ': delete recorded after the replaced action was withdrawn')
+                else:
+                    ob.violate(rel, qual, src(c)[:60] + "  ('deliver' still on record)", 'delete is recorded for a bundle whose earlier action stays on record: its status report asserts delivered (or forwarded) and deleted '
+                               'at the same time, for a bundle the application refused', c)
+    ob.require(n >= 5, 'delete records found: {}'.format(n))
+
+
+def c19k(tree, ob):
+    from .. import absint
+    rel = 'bp/encoding/fields.py'
+    cls = tree.klass(rel, 'DtnTimeField')
+    m = one([x for x in cls.body if isinstance(x, ast.FunctionDef) and x.name == 'any2i'], 'DtnTimeField.any2i', ob)
+    out = absint.run(m.body, {m.args.args[2].arg: None}, {})
+    if out.kind == 'return' and out.value is None:
+        ob.site(rel, m, 'any2i(None) is None')
+    else:
+        ob.violate(rel, 'DtnTimeField.any2i', 'any2i(None)', 'an absent time is converted into a value (DTN time 0): status items whose time was not requested are sent as [true, 0] instead of [true]', out.node or m)
